@@ -430,6 +430,10 @@ func run(s *kernel.Sim, c *scen.Case) {
 				}
 				st := stream.NewStream(ep)
 				dev := puppet.Dev{ECDH: kernel.Pick(t, "ecdh", "random", "truncate", "omit", "garbage")}
+				if t.Chance("dv.bitmask", 1, 3) {
+					// ... or in the method selection: its ad lists a method the server has, its bitmask names only others
+					dev = puppet.Dev{ClientBitmask: kernel.Pick(t, "dv.mask", puppet.BitKerberos, puppet.BitFS|puppet.BitKerberos, puppet.BitSSL)}
+				}
 				lv := func(l security.SecurityLevel) string { return string(l) }
 				rec := puppet.Client(bg, st, puppet.ClientOpts{Methods: []string{"CLAIMTOBE"}, Auth: lv(lvl("dv.auth")), Enc: lv(lvl("dv.enc")), Command: cmd, User: "root", Dev: dev})
 				if rec.Err != nil || rec.PostAuth == nil {
